@@ -378,8 +378,12 @@ def gen_case(rng: random.Random, P: Dict[str, Any]) -> Case:
         if s.kind == "final" and rng.random() >= P["p_final_trans"]:
             continue
         p_h = P["p_root_on"] * P["p_handle"] if s is tree.root else P["p_handle"]
-        for ev in case.events:
-            if rng.random() < p_h:
+        keys = list(case.events)
+        if P.get("wild"):
+            # event descriptors: 'x.*' for every dotted event type's prefix, and the bare wildcard
+            keys += sorted({e.rsplit(".", 1)[0] + ".*" for e in case.events if "." in e}) + ["*"]
+        for ev in keys:
+            if rng.random() < p_h * (0.6 if ev.endswith("*") else 1.0):
                 if P["p_forbidden"] and rng.random() < P["p_forbidden"]:
                     t = Trans(tid[0], s, ev, "on", None, None, None, False, 0, forbidden=True)
                     tid[0] += 1
